@@ -14,6 +14,7 @@
 #if defined(__has_include)
 #if __has_include(<valgrind/memcheck.h>)
 #include <sys/mman.h>
+#include <sys/resource.h>
 #include <fenv.h>
 #include <locale.h>
 #include <xmmintrin.h>
@@ -265,6 +266,10 @@ inline void apply_ambient() {
         if (v.find("zero") != std::string::npos) fesetround(FE_TOWARDZERO);
         if (v.find("trap") != std::string::npos) feenableexcept(FE_INVALID | FE_DIVBYZERO | FE_OVERFLOW);
         stats().notes["fpenv"] = "floating-point environment of the process for this target: " + v;
+    }
+    if (const char *r = getenv("VP_RLIMIT")) {
+        // resource limits of the process: "stack-unlimited" is what `ulimit -s unlimited` / systemd LimitSTACK=infinity give an application
+        if (strstr(r, "stack-unlimited")) { struct rlimit rl; if (getrlimit(RLIMIT_STACK, &rl) == 0) { rl.rlim_cur = rl.rlim_max; setrlimit(RLIMIT_STACK, &rl); stats().notes["rlimit"] = rl.rlim_max == RLIM_INFINITY ? "soft stack limit of the process: unlimited" : "soft stack limit raised to the hard limit (not unlimited on this host)"; } }
     }
     if (const char *l = getenv("VP_LOCALE")) {
         const char *r = setlocale(LC_CTYPE, l);
